@@ -351,7 +351,7 @@ func c07Gen(r *vu.RNG, n int, emit0 func(string)) {
 			b := vu.UnHex(in[5:])
 			if c07big(b) {
 				giants++
-				if giants > 6 {
+				if giants > c07giantBudget() {
 					// keep the front, drop what could be read as a huge length
 					for len(b) > 0 && c07big(b) {
 						b = b[:len(b)-1]
@@ -405,4 +405,11 @@ func c07Gen(r *vu.RNG, n int, emit0 func(string)) {
 
 func TestVerifC07Codec(t *testing.T) {
 	vu.Run(t, "C07", 3000, c07Gen, c07Run)
+}
+
+func c07giantBudget() int {
+	if vu.Thorough() {
+		return 40
+	}
+	return 0
 }
